@@ -12,7 +12,7 @@ import ast
 from ..cfg import cfg_of
 from ..flow import flow_of, path_of
 from ..loader import FUNC, AnalysisError, const_fold, dotted, last_name, loc, short, walk_local, enclosing_stmt
-from ..util import FORMATTER, PATH, REPEX, SETUP, is_self_attr, kwarg, last_key
+from ..util import FORMATTER, PATH, REPEX, SETUP, is_self_attr, kwarg, last_key, oriented
 from ..variants import B, K
 
 EXPLANATION = (
@@ -218,9 +218,8 @@ def r83(ctx):
                     construct=short(c, 80))
             continue
         # guards
-        facts = [(ast.unparse(e), t) for e, t, _ in cfg.guards(at)]
-        lag = any(t and "len(self.pn_olds) >" in s and "self.n - 2" in s for s, t in facts)
-        init = any(t and _is_initial_guard(e) for e, t, _ in cfg.guards(at))
+        lag = any(t and _is_lag_guard(e, fifo) for e, t, _ in cfg.guards(at))
+        init = any(t and _is_initial_guard(e, fl, at) for e, t, _ in cfg.guards(at))
         if not lag:
             ctx.bad(rid, c, "deletion is not guarded by the lag test on the FIFO length (len(self.pn_olds) > self.n - 2)")
         elif not init:
@@ -241,7 +240,7 @@ def r83(ctx):
             ctx.bad(rid, d.stmt, "the just-replaced path is queued before the deletion block of the same iteration: it can be deleted in the step in which the on-disk restart file still names it")
         else:
             facts = cfg.guards(d.at)
-            if not any(t and _is_initial_guard(e) for e, t, _ in facts):
+            if not any(t and _is_initial_guard(e, fl, d.at) for e, t, _ in facts):
                 ctx.bad(rid, d.stmt, "queueing for deletion is not guarded by `pn_old > self.n - 2`: initial paths would be deleted later")
             else:
                 # what is queued must be the replaced path's own files
@@ -263,18 +262,38 @@ def r83(ctx):
             ctx.bad(rid, c, "_move_path removes a file that is not a destination under the new path's own directory")
 
 
-def _is_initial_guard(e):
-    """pn_old > self.n - 2  (or >= self.n - 1)."""
-    if not isinstance(e, ast.Compare) or len(e.ops) != 1:
+def _gt_n_minus_2(o):
+    """(lhs, op, rhs) says  lhs > self.n - 2  (equivalently >= self.n - 1)?"""
+    if o is None:
         return False
-    l, r = ast.unparse(e.left), ast.unparse(e.comparators[0])
-    if "pn_old" not in l:
+    r = ast.unparse(o[2]).replace(" ", "")
+    return (isinstance(o[1], ast.Gt) and r == "self.n-2") or (isinstance(o[1], ast.GtE) and r == "self.n-1")
+
+
+def _is_replaced_number(x, fl, at):
+    """Is x the number of the path being replaced (the value stored under the 'pn_old' key of the
+    picked entry)? Resolved through provenance; the local's own name does not matter."""
+    if not isinstance(x, ast.Name):
         return False
-    if isinstance(e.ops[0], ast.Gt) and r == "self.n - 2":
-        return True
-    if isinstance(e.ops[0], ast.GtE) and r == "self.n - 1":
-        return True
+    for kind, node, sat, extra in fl.sources(x, at):
+        t = (str(extra) if extra else "") + (ast.unparse(node) if isinstance(node, ast.AST) else "")
+        if "pn_old" in t.replace('"', "'"):
+            return True
+        if hasattr(node, "value") and isinstance(getattr(node, "value", None), ast.AST) and "'pn_old'" in ast.unparse(node.value).replace('"', "'"):
+            return True
     return False
+
+
+def _is_initial_guard(e, fl=None, at=None):
+    """<replaced path's number> > self.n - 2  (or >= self.n - 1), in either orientation."""
+    if fl is None:
+        return _gt_n_minus_2(oriented(e, lambda x: isinstance(x, ast.Name)))
+    return _gt_n_minus_2(oriented(e, lambda x: _is_replaced_number(x, fl, at)))
+
+
+def _is_lag_guard(e, fifo):
+    """len(<fifo>) > self.n - 2 (or >= self.n - 1), in either orientation."""
+    return _gt_n_minus_2(oriented(e, lambda x: isinstance(x, ast.Call) and dotted(x.func) == "len" and x.args and path_of(x.args[0]) == fifo))
 
 
 def r84(ctx):
